@@ -6,7 +6,7 @@
      tok       the 1-buffered redrawCh (0/1);  full: redrawFull under redrawMutex
      retCh     the 1-buffered returnCh (sequence of length <= 1); Return never blocks, drops if full
    Loop program counter lpc (the steps of Run):
-     top -> [Extract] -> redraw -> [Redraw] -> select
+     top -> [Extract] -> redraw -> [Redraw] -> incb -> [CbRequest]* [CbEnd] -> select
      select -> [SelInput] handle | [SelReturn] final | [SelRedraw] top      (Go select: any ready arm)
      handle -> [Handle(e) + optional handler sub-steps] pollret -> [PollRet] final | pollin
      pollin -> [PollIn] handle | top        final -> [FinalRedraw] returned
@@ -28,8 +28,9 @@ VARIABLES Scripts,           \* [Prods -> Seq(op)], chosen in Init
           inputCh, tok, full, retCh,
           lpc, cur, flag,
           ppc,
+          cb,                \* requests the redraw callback may still issue itself (it runs on the loop goroutine)
           reqs, served, fullPending, draws, handled, result, finals, afterFinal
-vars == <<Scripts, inputCh, tok, full, retCh, lpc, cur, flag, ppc, reqs, served, fullPending, draws, handled, result, finals, afterFinal>>
+vars == <<Scripts, inputCh, tok, full, retCh, lpc, cur, flag, ppc, cb, reqs, served, fullPending, draws, handled, result, finals, afterFinal>>
 
 RedrawOp(f) == [k |-> "redraw", full |-> f, act |-> "none"]
 InputOp(a)  == [k |-> "input", full |-> FALSE, act |-> a]
@@ -39,7 +40,7 @@ InitWith(S) ==
   /\ Scripts = S
   /\ inputCh = <<>> /\ tok = 0 /\ full = FALSE /\ retCh = <<>>
   /\ lpc = "top" /\ cur = <<>> /\ flag = {}
-  /\ ppc = [p \in Prods |-> 1]
+  /\ ppc = [p \in Prods |-> 1] /\ cb = 1
   /\ reqs = {} /\ served = {} /\ fullPending = FALSE /\ draws = 0 /\ handled = <<>> /\ result = <<>>
   /\ finals = 0 /\ afterFinal = 0
 
@@ -54,52 +55,59 @@ HasOp(p) == ppc[p] <= Len(Scripts[p])
 PRedraw(p) == /\ HasOp(p) /\ Op(p).k = "redraw"
               /\ DoRedraw(Op(p).full, <<p, ppc[p]>>)
               /\ ppc' = [ppc EXCEPT ![p] = @ + 1]
-              /\ UNCHANGED <<Scripts, inputCh, retCh, lpc, cur, flag, served, draws, handled, result, finals, afterFinal>>
+              /\ UNCHANGED <<cb, Scripts, inputCh, retCh, lpc, cur, flag, served, draws, handled, result, finals, afterFinal>>
 PInput(p) == /\ HasOp(p) /\ Op(p).k = "input" /\ Len(inputCh) < InCap
              /\ inputCh' = Append(inputCh, [p |-> p, i |-> ppc[p], act |-> Op(p).act])
              /\ ppc' = [ppc EXCEPT ![p] = @ + 1]
-             /\ UNCHANGED <<Scripts, tok, full, retCh, lpc, cur, flag, reqs, served, fullPending, draws, handled, result, finals, afterFinal>>
+             /\ UNCHANGED <<cb, Scripts, tok, full, retCh, lpc, cur, flag, reqs, served, fullPending, draws, handled, result, finals, afterFinal>>
 PReturn(p) == /\ HasOp(p) /\ Op(p).k = "return"
               /\ DoReturn(<<p, ppc[p]>>)
               /\ ppc' = [ppc EXCEPT ![p] = @ + 1]
-              /\ UNCHANGED <<Scripts, inputCh, tok, full, lpc, cur, flag, reqs, served, fullPending, draws, handled, result, finals, afterFinal>>
+              /\ UNCHANGED <<cb, Scripts, inputCh, tok, full, lpc, cur, flag, reqs, served, fullPending, draws, handled, result, finals, afterFinal>>
 \* ---- loop
 LExtract == /\ lpc = "top" /\ flag' = (IF full THEN {"full"} ELSE {}) /\ full' = FALSE /\ lpc' = "redraw"
-            /\ UNCHANGED <<Scripts, inputCh, tok, retCh, cur, ppc, reqs, served, fullPending, draws, handled, result, finals, afterFinal>>
+            /\ UNCHANGED <<cb, Scripts, inputCh, tok, retCh, cur, ppc, reqs, served, fullPending, draws, handled, result, finals, afterFinal>>
 LRedraw == /\ lpc = "redraw" /\ draws' = draws + 1
            /\ served' = reqs       \* requests completed before this redraw started are served by it
            /\ fullPending' = (IF "full" \in flag THEN full ELSE fullPending)
-           /\ lpc' = "select"
-           /\ UNCHANGED <<Scripts, inputCh, tok, full, retCh, cur, flag, ppc, reqs, handled, result, finals, afterFinal>>
+           /\ lpc' = "incb"
+           /\ UNCHANGED <<cb, Scripts, inputCh, tok, full, retCh, cur, flag, ppc, reqs, handled, result, finals, afterFinal>>
+\* the redraw callback is running (lpc = "incb"): producers may issue requests meanwhile, and the callback
+\* itself may call Redraw (loop.go: "the callback may itself request a redraw"); then it returns
+LCbRequest(f) == /\ lpc = "incb" /\ cb > 0 /\ cb' = cb - 1
+                 /\ DoRedraw(f, <<0, draws>>)
+                 /\ UNCHANGED <<Scripts, inputCh, retCh, lpc, cur, flag, ppc, served, draws, handled, result, finals, afterFinal>>
+LCbEnd == /\ lpc = "incb" /\ lpc' = "select"
+          /\ UNCHANGED <<cb, Scripts, inputCh, tok, full, retCh, cur, flag, ppc, reqs, served, fullPending, draws, handled, result, finals, afterFinal>>
 LSelInput == /\ lpc = "select" /\ inputCh # <<>> /\ cur' = Head(inputCh) /\ inputCh' = Tail(inputCh) /\ lpc' = "handle"
-             /\ UNCHANGED <<Scripts, tok, full, retCh, flag, ppc, reqs, served, fullPending, draws, handled, result, finals, afterFinal>>
+             /\ UNCHANGED <<cb, Scripts, tok, full, retCh, flag, ppc, reqs, served, fullPending, draws, handled, result, finals, afterFinal>>
 LSelReturn == /\ lpc = "select" /\ retCh # <<>> /\ result' = retCh /\ retCh' = <<>> /\ lpc' = "final"
-              /\ UNCHANGED <<Scripts, inputCh, tok, full, cur, flag, ppc, reqs, served, fullPending, draws, handled, finals, afterFinal>>
+              /\ UNCHANGED <<cb, Scripts, inputCh, tok, full, cur, flag, ppc, reqs, served, fullPending, draws, handled, finals, afterFinal>>
 LSelRedraw == /\ lpc = "select" /\ tok = 1 /\ tok' = 0 /\ lpc' = "top"
-              /\ UNCHANGED <<Scripts, inputCh, full, retCh, cur, flag, ppc, reqs, served, fullPending, draws, handled, result, finals, afterFinal>>
+              /\ UNCHANGED <<cb, Scripts, inputCh, full, retCh, cur, flag, ppc, reqs, served, fullPending, draws, handled, result, finals, afterFinal>>
 \* handling an event: the handler's own request happens inside the callback
 LHandle == /\ lpc = "handle" /\ handled' = Append(handled, <<cur.p, cur.i>>) /\ lpc' = "pollret"
            /\ CASE cur.act = "none"       -> UNCHANGED <<tok, full, reqs, fullPending, retCh>>
                 [] cur.act = "redraw"     -> DoRedraw(FALSE, <<cur.p, cur.i>>) /\ UNCHANGED retCh
                 [] cur.act = "redrawfull" -> DoRedraw(TRUE, <<cur.p, cur.i>>) /\ UNCHANGED retCh
                 [] cur.act = "return"     -> DoReturn(<<cur.p, cur.i>>) /\ UNCHANGED <<tok, full, reqs, fullPending>>
-           /\ UNCHANGED <<Scripts, inputCh, cur, flag, ppc, served, draws, result, finals, afterFinal>>
+           /\ UNCHANGED <<cb, Scripts, inputCh, cur, flag, ppc, served, draws, result, finals, afterFinal>>
 LPollRet == /\ lpc = "pollret"
             /\ IF retCh # <<>> THEN result' = retCh /\ retCh' = <<>> /\ lpc' = "final"
                ELSE lpc' = "pollin" /\ UNCHANGED <<result, retCh>>
-            /\ UNCHANGED <<Scripts, inputCh, tok, full, cur, flag, ppc, reqs, served, fullPending, draws, handled, finals, afterFinal>>
+            /\ UNCHANGED <<cb, Scripts, inputCh, tok, full, cur, flag, ppc, reqs, served, fullPending, draws, handled, finals, afterFinal>>
 LPollIn == /\ lpc = "pollin"
            /\ IF inputCh # <<>> THEN cur' = Head(inputCh) /\ inputCh' = Tail(inputCh) /\ lpc' = "handle"
               ELSE lpc' = "top" /\ UNCHANGED <<cur, inputCh>>
-           /\ UNCHANGED <<Scripts, tok, full, retCh, flag, ppc, reqs, served, fullPending, draws, handled, result, finals, afterFinal>>
+           /\ UNCHANGED <<cb, Scripts, tok, full, retCh, flag, ppc, reqs, served, fullPending, draws, handled, result, finals, afterFinal>>
 LFinal == /\ lpc = "final" /\ finals' = finals + 1 /\ lpc' = "returned"
-          /\ UNCHANGED <<Scripts, inputCh, tok, full, retCh, cur, flag, ppc, reqs, served, fullPending, draws, handled, result, afterFinal>>
-LoopStep == LExtract \/ LRedraw \/ LSelInput \/ LSelReturn \/ LSelRedraw \/ LHandle \/ LPollRet \/ LPollIn \/ LFinal
+          /\ UNCHANGED <<cb, Scripts, inputCh, tok, full, retCh, cur, flag, ppc, reqs, served, fullPending, draws, handled, result, afterFinal>>
+LoopStep == LExtract \/ LRedraw \/ LCbRequest(TRUE) \/ LCbRequest(FALSE) \/ LCbEnd \/ LSelInput \/ LSelReturn \/ LSelRedraw \/ LHandle \/ LPollRet \/ LPollIn \/ LFinal
 ProdStep == \E p \in Prods : PRedraw(p) \/ PInput(p) \/ PReturn(p)
 Next == LoopStep \/ ProdStep
 
 \* ---- properties
-Serial == lpc \in {"top", "redraw", "select", "handle", "pollret", "pollin", "final", "returned"}
+Serial == lpc \in {"top", "redraw", "incb", "select", "handle", "pollret", "pollin", "final", "returned"}
 NoLostRedraw == (lpc = "select" /\ inputCh = <<>> /\ retCh = <<>>) => (reqs \subseteq served \/ tok = 1)
 FullKept == (fullPending /\ lpc \notin {"final", "returned"}) => (full \/ (lpc = "redraw" /\ "full" \in flag))
 OneFinal == (lpc = "returned") => finals = 1
